@@ -90,5 +90,15 @@ func ParseSecrets(secrets []*big.Int) ([][]*big.Int, error) {
 		}
 		isLenEl = !isLenEl
 	}
+	if !isLenEl {
+		// the input ended right after a length prefix: only an empty final part is well-formed
+		if nextPartLen != 0 {
+			return nil, errors.New("ParseSecrets: not enough data to consume stated data length")
+		}
+		if PartsCap <= len(parts) {
+			return nil, fmt.Errorf("ParseSecrets: commitment has too many parts: part %d, max %d", len(parts), PartsCap)
+		}
+		parts = append(parts, secrets[el:el])
+	}
 	return parts, nil
 }
